@@ -1,7 +1,151 @@
 import H5V.Proto
-/- engine `tok` (stub) -/
+import H5V.Model.HtmlTok
+/- engine `tok` — HTML tokenizer.
+   fields: opts (`exact=0|1,bom=0|1,…`) ; initial state (Rust Debug name or `-`) ;
+           last start tag (hex, `~` = None) ; policy (`cdata=0|1;<hexname>=P|R0..R4|S|I;/<hexname>=…`) ;
+           chunks (hex strings separated by `|`) ; injections (`k:hex,…` or `-`)
+   output: canonical tokens separated by `;`, then ` F=` feed results -/
 namespace H5V.Model.HtmlTokDriver
+open H5V.Proto H5V.Model.HtmlTok
 
-def runCase (_fields : List String) : String := "unimplemented"
+def allStates : List State :=
+  let raw : List RawKind := [.rcdata, .rawtext, .scriptData, .scriptDataEscaped .escaped, .scriptDataEscaped .doubleEscaped]
+  let esc : List ScriptEscapeKind := [.escaped, .doubleEscaped]
+  let ids : List DoctypeIdKind := [.pub, .sys]
+  [.data, .plaintext, .tagOpen, .endTagOpen, .tagName]
+  ++ raw.map .rawData ++ raw.map .rawLessThanSign ++ raw.map .rawEndTagOpen ++ raw.map .rawEndTagName
+  ++ esc.map .scriptDataEscapeStart ++ [.scriptDataEscapeStartDash]
+  ++ esc.map .scriptDataEscapedDash ++ esc.map .scriptDataEscapedDashDash
+  ++ [.scriptDataDoubleEscapeEnd, .beforeAttributeName, .attributeName, .afterAttributeName, .beforeAttributeValue]
+  ++ [.attributeValue .unquoted, .attributeValue .singleQuoted, .attributeValue .doubleQuoted]
+  ++ [.afterAttributeValueQuoted, .selfClosingStartTag, .bogusComment, .markupDeclarationOpen,
+      .commentStart, .commentStartDash, .comment, .commentLessThanSign, .commentLessThanSignBang,
+      .commentLessThanSignBangDash, .commentLessThanSignBangDashDash, .commentEndDash, .commentEnd,
+      .commentEndBang, .doctype, .beforeDoctypeName, .doctypeName, .afterDoctypeName]
+  ++ ids.map .afterDoctypeKeyword ++ ids.map .beforeDoctypeIdentifier
+  ++ ids.map .doctypeIdentifierDoubleQuoted ++ ids.map .doctypeIdentifierSingleQuoted
+  ++ ids.map .afterDoctypeIdentifier
+  ++ [.betweenDoctypePublicAndSystemIdentifiers, .bogusDoctype, .cdataSection, .cdataSectionBracket, .cdataSectionEnd]
+
+def parseState (s : String) : Option State :=
+  allStates.find? (fun st => st.dbg == s)
+
+def parseRes (s : String) : Option SinkRes :=
+  match s with
+  | "P" => some .plaintext
+  | "R0" => some (.rawData .rcdata)
+  | "R1" => some (.rawData .rawtext)
+  | "R2" => some (.rawData .scriptData)
+  | "R3" => some (.rawData (.scriptDataEscaped .escaped))
+  | "R4" => some (.rawData (.scriptDataEscaped .doubleEscaped))
+  | "S" => some .script
+  | "I" => some .indicator
+  | "C" => some .continue_
+  | _ => none
+
+structure Rules where
+  cdata : Bool := false
+  rules : List (Bool × Str × SinkRes) := []   -- (isEndTag, name, result)
+
+def parseRules (s : String) : Option Rules :=
+  let parts := (s.splitOn ";").filter (· ≠ "")
+  parts.foldlM (fun (r : Rules) p =>
+    match p.splitOn "=" with
+    | ["cdata", v] => some { r with cdata := v == "1" }
+    | [name, res] =>
+      let isEnd := name.startsWith "/"
+      let nm := if isEnd then (name.drop 1).toString else name
+      match parseChars? nm, parseRes res with
+      | some n, some rs => some { r with rules := r.rules ++ [(isEnd, n, rs)] }
+      | _, _ => none
+    | _ => none) {}
+
+def polOf (r : Rules) : Pol :=
+  { cdataOk := fun _ => r.cdata
+    onTag := fun _ t =>
+      match r.rules.find? (fun x => x.1 == (t.kind == .endTag) && x.2.1 == t.name) with
+      | some x => x.2.2
+      | none => .continue_ }
+
+def optStr : Option Str → String
+  | none => "~"
+  | some s => showChars s
+
+def showTok : Token × Nat → String
+  | (.chars s, l) => s!"C:{showChars s}@{l}"
+  | (.nullChar, l) => s!"N@{l}"
+  | (.tag t, l) =>
+    let k := if t.kind == .startTag then "s" else "e"
+    let attrs := ",".intercalate (t.attrs.map fun a => showChars a.name ++ "=" ++ showChars a.value)
+    s!"T:{k}:{showChars t.name}:{if t.selfClosing then 1 else 0}:{if t.hadDup then 1 else 0}:[{attrs}]@{l}"
+  | (.comment s, l) => s!"M:{showChars s}@{l}"
+  | (.doctype d, l) => s!"D:{optStr d.name}:{optStr d.publicId}:{optStr d.systemId}:{if d.forceQuirks then 1 else 0}@{l}"
+  | (.error e, l) => s!"E:{showChars e}@{l}"
+  | (.eof, l) => s!"EOF@{l}"
+  | (.pause sc, l) => s!"P:{if sc then "s" else "i"}@{l}"
+
+/-- merge adjacent character tokens; the merged token carries the line of its last piece -/
+def canon : List (Token × Nat) → List (Token × Nat)
+  | (.chars a, _) :: (.chars b, l2) :: rest => canon ((.chars (a ++ b), l2) :: rest)
+  | x :: rest => x :: canon rest
+  | [] => []
+termination_by l => l.length
+
+def showOut (out : Out) : String :=
+  ";".intercalate ((canon out.reverse).map showTok)
+
+def parseInj (s : String) : Option (List (Nat × Str)) :=
+  if s.trimAscii.toString == "-" || s.isEmpty then some [] else
+  (s.splitOn ",").mapM fun p =>
+    match p.splitOn ":" with
+    | [k, h] => match k.toNat?, parseChars? h with
+      | some k, some h => some (k, h)
+      | _, _ => none
+    | _ => none
+
+/-- feed one chunk, resuming after every pause (with injection at the front of the input) -/
+def feedChunk (o : Opts) (pol : Pol) (inj : List (Nat × Str)) :
+    Nat → Mach → Str → Str → Nat → List String → Except String (Mach × Str × Nat × List String)
+  | 0, _, _, _, _, _ => .error "too-many-pauses"
+  | fuel + 1, m, inp, chunk, pauses, log =>
+    let injected (inp : Str) : Str := match inj.find? (·.1 == pauses) with
+      | some (_, s) => s ++ inp
+      | none => inp
+    match feed o pol m inp chunk with
+    | .done m inp => .ok (m, inp, pauses, "D" :: log)
+    | .script m inp => feedChunk o pol inj fuel m (injected inp) [] (pauses + 1) ("S" :: log)
+    | .indicator m inp => feedChunk o pol inj fuel m (injected inp) [] (pauses + 1) ("I" :: log)
+    | .panic e => .error ("PANIC " ++ e)
+    | .outOfFuel => .error "OUT-OF-FUEL"
+
+def getOpt (opts : List (String × String)) (k : String) (d : Bool) : Bool :=
+  match opts.find? (·.1 == k) with
+  | some (_, v) => v == "1"
+  | none => d
+
+def runCase (fields : List String) : String :=
+  match fields with
+  | [optsS, stateS, lastS, polS, chunksS, injS] =>
+    let opts := (optsS.splitOn ",").filterMap fun p =>
+      match p.splitOn "=" with | [k, v] => some (k, v) | _ => none
+    let o : Opts := { exactErrors := getOpt opts "exact" false }
+    let st := if stateS == "-" then some State.data else parseState stateS
+    let last : Option (Option Str) := if lastS == "~" then some none else (parseChars? lastS).map some
+    let chunks := (chunksS.splitOn "|").mapM parseChars?
+    match st, last, parseRules polS, chunks, parseInj injS with
+    | some st, some last, some rules, some chunks, some inj =>
+      let pol := polOf rules
+      let m0 : Mach := { state := st, lastStartTag := last, discardBom := getOpt opts "bom" true }
+      let r := chunks.foldlM (fun (acc : Mach × Str × Nat × List String) ch =>
+        feedChunk o pol inj 64 acc.1 acc.2.1 ch acc.2.2.1 acc.2.2.2) (m0, [], 0, [])
+      match r with
+      | .error e => e
+      | .ok (m, inp, _, log) =>
+        if !inp.isEmpty then "QUEUE-NOT-DRAINED" else
+        match finish o pol m with
+        | .error e => "PANIC " ++ e
+        | .ok m => showOut m.out ++ " F=" ++ ",".intercalate log.reverse
+    | _, _, _, _, _ => "bad-case"
+  | _ => "bad-case"
 
 end H5V.Model.HtmlTokDriver
